@@ -274,8 +274,9 @@ fn do_astser(rec: &Value) -> Value {
 }
 
 pub fn intercept() -> bool {
-    let args: Vec<String> = std::env::args().collect();
-    if args.len() < 2 || args[1] != "--verif" { return false; }
+    // (args_os: the ordinary command line may carry arguments that are not UTF-8, e.g. a --heap-log path; std::env::args() would panic on them)
+    match std::env::args_os().nth(1) { Some(a) if a == "--verif" => {}, _ => return false }
+    let args: Vec<String> = std::env::args_os().map(|a| a.to_string_lossy().into_owned()).collect();
     if args.len() < 5 { eprintln!("usage: fml --verif <run|exec|sink|astser> IN.ndjson OUT.ndjson"); std::process::exit(2); }
     std::panic::set_hook(Box::new(|_| {}));
     let cmd = args[2].as_str();
